@@ -261,6 +261,12 @@ func (in *c05Inst) payTx(n *wNode, ids []uint64, tag uint32, variant string, cha
 		if variant == "tx:amount-too-large" && i == 0 {
 			v = int64(w.Amount) + 1
 		}
+		if variant == "tx:amount-2^64-1" && i == 0 {
+			v = -1 // the 8 value bytes ff..ff: 2^64-1 satoshi, negative as a signed integer
+		}
+		if variant == "tx:amount-2^63" && i == 0 {
+			v = -1 << 63
+		}
 		if scr == nil {
 			scr = []byte{0, 20, 1, 2, 3, 4, 5, 6, 7, 8, 9, 10, 11, 12, 13, 14, 15, 16, 17, 18, 19, 20}
 		}
@@ -668,7 +674,7 @@ func (in *c05Inst) illFormed(n *wNode, path []wOp) {
 		procSets = append(procSets, []uint64{1, 2})
 	}
 	for _, ids := range procSets {
-		for _, v := range []string{"tx:other-script", "tx:amount-too-large", "fee:above-max", "tx:two-extra-outputs", "tx:change-to-other-key", "tx:change-other-witness-version", "tx:change-to-deposit-script", "vote:no-quorum", "vote:other-payload", "vote:mark-beyond", "sender:other"} {
+		for _, v := range []string{"tx:other-script", "tx:amount-too-large", "tx:amount-2^64-1", "tx:amount-2^63", "fee:above-max", "tx:two-extra-outputs", "tx:change-to-other-key", "tx:change-other-witness-version", "tx:change-to-deposit-script", "vote:no-quorum", "vote:other-payload", "vote:mark-beyond", "sender:other"} {
 			msg, _, _ := in.processMsg(n, ids, v, false)
 			check(fmt.Sprintf("process%v:%s", ids, v), msg, nil)
 		}
@@ -683,7 +689,7 @@ func (in *c05Inst) illFormed(n *wNode, path []wOp) {
 		if !open {
 			continue
 		}
-		for _, v := range []string{"fee:not-higher", "fee:above-max", "tx:identical", "tx:other-script", "tx:amount-too-large", "tx:two-extra-outputs", "tx:change-to-other-key", "tx:change-other-witness-version", "tx:change-to-deposit-script", "vote:no-quorum", "vote:other-payload"} {
+		for _, v := range []string{"fee:not-higher", "fee:above-max", "tx:identical", "tx:other-script", "tx:amount-too-large", "tx:amount-2^64-1", "tx:amount-2^63", "tx:two-extra-outputs", "tx:change-to-other-key", "tx:change-other-witness-version", "tx:change-to-deposit-script", "vote:no-quorum", "vote:other-payload"} {
 			msg, _, _, _ := in.replaceMsg(n, pid, v)
 			check(fmt.Sprintf("replace:%s", v), msg, nil)
 		}
